@@ -1263,15 +1263,17 @@ def check_shapes(gen, unit_path, record=False):
             raise LostAnchor(f'shape of {k} changed: recorded {v}, now {cur[k]} (ordinal anchors would be ambiguous)')
 
 
-def generate(unit_path, canaries=True, record_shapes=False):
-    """Returns Generated. unit_path: path of unit.vs"""
-    gen = _generate(unit_path, canaries)
+def generate(unit_path, canaries=True, record_shapes=False, extra=None):
+    """Returns Generated. unit_path: path of unit.vs. extra: [(repo file, kind, name)] items to extract in addition
+    (used by the runner to pull in constants of the same file that an extracted function turns out to reference)."""
+    gen = _generate(unit_path, canaries, extra or [])
     check_shapes(gen, unit_path, record=record_shapes)
     return gen
 
 
-def _generate(unit_path, canaries=True):
+def _generate(unit_path, canaries=True, extra=()):
     gen = Generated()
+    extra = list(extra)
     lines = []
 
     def load(path, depth=0):
@@ -1353,6 +1355,12 @@ def _generate(unit_path, canaries=True):
         if not w or w[0] == '#':
             i += 1
             continue
+        if extra and w[0] in ('item', 'impl', 'fn', 'lift') and cur_impl is None:
+            for (rel_x, kind_x, name_x) in extra:
+                sfx = SrcFile.get(rel_x)
+                emit_item(gen, sfx, sfx.find_item(kind_x, name_x))
+                gen.rewrites.append((f'R-AUTOCONST {kind_x} {name_x} (referenced by an extracted function)', rel_x, 0))
+            extra = []
         if w[0] in ('idtype', 'idtype64'):
             tmpl = open(os.path.join(VERIF, 'prelude', 'idtype.tmpl')).read().replace('__REP__', 'u64' if w[0] == 'idtype64' else 'u32')
             tp = os.path.join(VERIF, 'prelude', 'idtype.tmpl')
